@@ -160,8 +160,14 @@ func ruleC13(c *Ctx, r *Report) {
 			split, _ = lc.Call.Args[0].(*ssa.Call)
 		}
 	}
+	if split == nil {
+		// or: the component slice itself, each element overwritten in place
+		if sc, ok := out.(*ssa.Call); ok && calleeKey(&sc.Call) == "strings.Split" {
+			split = sc
+		}
+	}
 	if split == nil || calleeKey(&split.Call) != "strings.Split" {
-		r.Bad("C13-R2", "HashName:one-output-per-component", c.InstrPos(join), "the joined slice is not make([]string, len(strings.Split(...))): path depth is not preserved")
+		r.Bad("C13-R2", "HashName:one-output-per-component", c.InstrPos(join), "the joined slice is neither make([]string, len(strings.Split(...))) nor the split result itself: path depth is not preserved")
 		return
 	}
 	r.OK("C13-R2", "HashName:one-output-per-component", c.InstrPos(join), "joined slice has len(strings.Split(...)) elements")
@@ -217,19 +223,32 @@ func ruleC13(c *Ctx, r *Report) {
 	if store == nil {
 		return
 	}
-	sp, ok := store.Val.(*ssa.Call)
-	if !ok || calleeKey(&sp.Call) != "fmt.Sprintf" {
-		r.Undecided("C13-R2", "HashName:format", c.InstrPos(store), "component pseudonym is not built by fmt.Sprintf")
+	var sp ssa.Instruction
+	var args []ssa.Value
+	if spc, ok := store.Val.(*ssa.Call); ok && calleeKey(&spc.Call) == "fmt.Sprintf" {
+		sp = spc
+		format, _ := constString(spc.Call.Args[0])
+		verbs := fmtVerbRe.FindAllString(format, -1)
+		lit := fmtVerbRe.ReplaceAllString(format, "\x00")
+		fmtOK := len(verbs) == 2 && (verbs[0] == "%s" || verbs[0] == "%v") && verbs[1] == "%x" && lit == "\x00_\x00"
+		r.Check(fmtOK, "C13-R2", "HashName:format", c.InstrPos(sp), fmt.Sprintf("format %q = <prefix>_<lower-case hex>", format), fmt.Sprintf("format %q does not render '<replacement>_<lower-case hex digits>'", format))
+		args = varargValues(spc.Call.Args[1])
+	} else if parts := concatOperands(store.Val); len(parts) == 3 {
+		// prefix + "_" + hex.EncodeToString(digest[:8])
+		sp = store
+		sepC, _ := constString(parts[1])
+		hexCall, isHex := parts[2].(*ssa.Call)
+		fmtOK := sepC == "_" && isHex && calleeKey(&hexCall.Call) == "encoding/hex.EncodeToString"
+		r.Check(fmtOK, "C13-R2", "HashName:format", c.InstrPos(store), "<prefix> + \"_\" + hex.EncodeToString(digest bytes) = <prefix>_<lower-case hex>", "the concatenation does not render '<replacement>_<lower-case hex digits>'")
+		if fmtOK {
+			args = []ssa.Value{parts[0], hexCall.Call.Args[0]}
+		}
+	} else {
+		r.Undecided("C13-R2", "HashName:format", c.InstrPos(store), "component pseudonym is built neither by fmt.Sprintf nor by prefix + \"_\" + hex.EncodeToString(...)")
 		return
 	}
-	format, _ := constString(sp.Call.Args[0])
-	verbs := fmtVerbRe.FindAllString(format, -1)
-	lit := fmtVerbRe.ReplaceAllString(format, "\x00")
-	fmtOK := len(verbs) == 2 && (verbs[0] == "%s" || verbs[0] == "%v") && verbs[1] == "%x" && lit == "\x00_\x00"
-	r.Check(fmtOK, "C13-R2", "HashName:format", c.InstrPos(sp), fmt.Sprintf("format %q = <prefix>_<lower-case hex>", format), fmt.Sprintf("format %q does not render '<replacement>_<lower-case hex digits>'", format))
-	args := varargValues(sp.Call.Args[1])
 	if len(args) != 2 {
-		r.Undecided("C13-R2", "HashName:format-args", c.InstrPos(sp), "cannot resolve Sprintf operands")
+		r.Undecided("C13-R2", "HashName:format-args", c.InstrPos(sp), "cannot resolve the operands of the pseudonym's rendering")
 		return
 	}
 	prefixOK := false
@@ -396,4 +415,12 @@ func varargValues(v ssa.Value) []ssa.Value {
 		out = append(out, vals[i])
 	}
 	return out
+}
+
+// concatOperands flattens a left-nested string concatenation a + b + c into its operands.
+func concatOperands(v ssa.Value) []ssa.Value {
+	if b, ok := v.(*ssa.BinOp); ok && b.Op == token.ADD && isStringType(b.Type()) {
+		return append(concatOperands(b.X), concatOperands(b.Y)...)
+	}
+	return []ssa.Value{v}
 }
